@@ -10,9 +10,9 @@ HANDLERS = ["h_c04.ml"]
 PROVED = ["C04_tile_shape", "C04_tile_element", "C04_repeat_flat", "C04_repeat_axis", "C04_roll_axis", "C04_roll_flat",
           "C04_pad", "C04_take_axis", "C04_take_flat", "C04_compress_axis", "C04_resize", "C04_concatenate_axis",
           "C04_concatenate_flat", "C04_tril_triu", "C04_tril_triu_1d", "C04_tri_eye", "C04_diagflat",
-          "C04_sliding_window_axis", "C04_expand_axis", "C04_arange_count", "C04_linspace_element", "C04_join_elements_on_domain", "C04_arange_count_unsigned_on_domain"]
+          "C04_sliding_window_axis", "C04_expand_axis", "C04_arange_count", "C04_linspace_element", "C04_join_elements_on_domain"]
 PARTIAL = ["C04_diagonal_matrix_partial"]
-REFUTED = ["C04_roll_repeated_axis_refuted", "C04_int_float32_common_type_refuted", "C04_arange_unsigned_decreasing_refuted"]
+REFUTED = ["C04_roll_repeated_axis_refuted", "C04_int_float32_common_type_refuted"]
 CORRESPONDENCE_ONLY = ["roll with a tuple of axes", "repeat with per-element counts", "compress with axis=None", "expand with several axes", "stack", "hstack",
                        "vstack", "dstack", "column_stack", "split", "sliding_window with several axes or axis=None",
                        "diagonal of arrays of dim > 2 or axes other than (0,1)", "where", "arange / linspace element values in floating point",
@@ -28,13 +28,12 @@ CLAIM = dict(
           "element count of arange (empty ranges included) and the elements of linspace as exact rationals (num = 1 included); PARTIAL: "
           "diagonal for matrices with axes (0,1) and ANY offset (negative, beyond the extent). These statements describe the tree WITH the "
           "fix: commits wrap_axis (repeat / take / compress / concatenate), negative take entries, diagonal offset, arange empty range, "
-          "arange negative integer step with a floating dtype, linspace element 0; the former findings are regression Examples. ELEMENT TYPES: an element of an operand of type a joined "
+          "arange negative integer step with a floating dtype, arange signed 64-bit difference of integer (run-time or constant) start / stop, linspace element 0; the former findings are regression Examples. ELEMENT TYPES: an element of an operand of type a joined "
           "(concatenate / stack family / where) with an operand of type b is copied exactly under C++'s common type whenever that agrees with "
           "NumPy's result type or the value is float32-representable (C04_join_elements_on_domain, types int8/int32/int64/float/double); "
           "REFUTED with Coq witnesses and listed as known findings: roll with an "
           "axis listed twice (last shift wins, NumPy adds); int32/int64 joined with float32 has element type float (NumPy float64: integers "
-          "above 2^24 are rounded); arange with unsigned start / stop over a decreasing range is empty (the difference wraps before the "
-          "conversion to float; found by the argument-form table, fix diff in /verif/fixes). "
+          "above 2^24 are rounded). "
           "CORRESPONDENCE-ONLY (modelled + specified + compared with the C++ on the grid, no element theorem): " + ", ".join(CORRESPONDENCE_ONLY) +
           ". Tied to the C++ by running view::X and array::X on run-time shaped operands (arguments as std::vector / std::array / run-time "
           "tuple / compile-time constants) and index::shape_X / index::X on vector / array / static_vector containers, two flavours "
@@ -601,9 +600,6 @@ def classify(line, impl, spec, model):
                 dt = x.split(":")[1]
                 if dt in ("i32", "i64") and any(not f32_exact(int(v)) for v in x.split(":")[3].split(",") if v):
                     return "int_float32_common_type"
-    if op == "arange_f":
-        f = t[1][2:].split(".")
-        if f[1].startswith("u") and f[2].startswith("u") and int(t[3][2:]) < int(t[2][2:]) and int(t[4][2:]) < 0: return "arange_unsigned_decreasing"
     if op in ("roll_m", "roll_ms"):
         d = _src_dim(t); axes = [a + d if a < 0 else a for a in _ints(t[-1])]
         if len(set(axes)) < len(axes): return "roll_repeated_axis"
